@@ -52,6 +52,7 @@ var registry = map[string]propDef{
 	"C10r": {"other", props.C10mirror},
 	"C10v": {"other", props.C10bitvec},
 	"C10k": {"other", props.C10take},
+	"C10p": {"other", props.C06pack},
 	"C10w": {"other", props.C10setwires},
 	"C19d": {"other", props.C19duality},
 	"C18g": {"other", props.C18guards},
@@ -88,6 +89,7 @@ var registry = map[string]propDef{
 	"C02e": {"other", props.C11data},
 	"C03w": {"other", props.C05wiring},
 	"C03r": {"other", props.C03rewrite},
+	"C03p": {"other", props.C03parallel},
 	"C12r": {"other", props.C03rewrite},
 	"C12o": {"other", props.C12outputs},
 	"C04r": {"other", props.C02ranges},
@@ -100,9 +102,12 @@ var registry = map[string]propDef{
 	"C07b": {"other", props.C07bitwise},
 	"C07p": {"other", props.C07prefix},
 	"C07h": {"other", props.C07hamming},
+	"C07g": {"other", props.GateHelpers},
+	"C03g": {"other", props.GateHelpers},
 	"C09p": {"other", props.C07prefix},
 	"C08":  {"other", props.C08},
 	"C08d": {"other", props.C08dirs},
+	"C08k": {"other", props.C08compare},
 	"C09":  {"other", props.C09},
 	"C09g": {"other", props.C09guards},
 	"C11t": {"other", props.C11table},
